@@ -155,7 +155,9 @@ def variants():
 VARS = variants()
 
 
-def real_build(name, single, seq):
+def real_build(name, single, seq, early=False):
+    """early: generate() is also called after every builder call (a builder reused for several patterns); the result
+    reported is that of the last generate(), which must not depend on the earlier ones"""
     from bobocep.cep.phenom.pattern.builder import BoboPatternBuilder
     from bobocep.cep.phenom.pattern.pattern import BoboPatternError, BoboPatternBlockError
     from bobocep.cep.phenom.pattern.predicate import BoboPredicate, BoboPredicateCall
@@ -176,6 +178,11 @@ def real_build(name, single, seq):
                 getattr(b, m)(pred)
             else:
                 getattr(b, m)(predicate=pred, group=PL.gname(kw.pop("group")), **kw)
+            if early:
+                try:
+                    b.generate()
+                except BoboPatternError:
+                    pass
     except BoboPatternBlockError:
         return [1]
     try:
@@ -331,6 +338,18 @@ def run(ctx, res):
             if got != exp:
                 res.failures.append(dict(signature="builder-flags", what="builder produced blocks %s, documented %s" % (got, exp),
                                          case=dict(name=name, single=single, seq=seq)))
+    # a builder reused: generate() after every call must not change what the last generate() returns
+    n_early = 0
+    for (name, single, seq), out in list(zip(cases, outs))[::3]:
+        if len(seq) < 2:
+            continue
+        n_early += 1
+        out2 = real_build(name, single, seq, early=True)
+        if out2 != out:
+            res.failures.append(dict(signature="builder-result-depends-on-earlier-generate",
+                                     what="the same builder calls give %s, and %s when generate() is also called after each of them"
+                                          % (out, out2), case=dict(name=name, single=single, seq=seq, early=True)))
+    res.extra["builder_sequences_with_intermediate_generate"] = n_early
     mism, errs = common.coq_run_cases("C19b", IMPORTS, "run_C19_build", "(nat * bool * list (bop ev))", coq_cases,
                                       shard=400, preamble=PREAMBLE)
     res.errors += errs
@@ -406,6 +425,12 @@ def replay(obj):
     case = obj.get("case") or {}
     sig = obj.get("signature", "")
     print(obj.get("what"))
+    if "seq" in case and case.get("early"):
+        seq = [(m, kw) for m, kw in case["seq"]]
+        a, b = real_build(case["name"], case["single"], seq), real_build(case["name"], case["single"], seq, early=True)
+        print("generate() once at the end      :", a)
+        print("generate() after every call too :", b)
+        return 0 if a == b else 1
     if "seq" in case:
         seq = [(m, kw) for m, kw in case["seq"]]
         out = real_build(case["name"], case["single"], seq)
